@@ -283,7 +283,7 @@ fn locate_panic(c: &Ctx, idx: usize, s: u128, vals: &[u128]) -> Vec<Step> {
 }
 
 pub fn oob_indices(k: usize, stride: usize, storage_w: u32) -> Vec<usize> {
-    let mut v = vec![k, k + 1, 2 * k, storage_w as usize, usize::MAX / stride.max(1) + 1, usize::MAX];
+    let mut v = vec![k, k + 1, 2 * k, storage_w as usize, (usize::MAX / stride.max(1)).saturating_add(1), usize::MAX];
     v.retain(|&i| i >= k);
     v.dedup();
     v
